@@ -149,7 +149,8 @@ pub fn check(tree: &Expr, acc: &mut Acc) {
     // the answer must not depend on having been asked before (same thread, same tree)
     let again = compile_render(&real, &subject::options(false, None), "/dev");
     let same = match (&res, &again) {
-        (C::Ok(a), C::Ok(b)) => a == b,
+        // the second embedded in a time test may tick between the two calls
+        (C::Ok(a), C::Ok(b)) => a.1 == b.1 && crate::props::children::normalise_clock(&a.0) == crate::props::children::normalise_clock(&b.0),
         (C::Err(a), C::Err(b)) => a == b,
         (C::Panic(_), C::Panic(_)) => true,
         _ => false,
